@@ -6,7 +6,7 @@
 (* for the stateful events, from the abstract register file the specification  *)
 (* itself maintains), and records every disagreement in `bad` instead of       *)
 (* blocking, so that the rest of the trace is still examined.                  *)
-EXTENDS TraceBase, Json, IOUtils
+EXTENDS TraceGroup, Json, IOUtils
 Rec == ndJsonDeserialize(IOEnv.TRACE)
 VARIABLES l, bad
 vars == <<l, bad>>
@@ -14,7 +14,9 @@ Known(e) == e.op \in {"f.add", "f.sub", "f.mul", "f.neg", "f.inv", "f.pow", "f.i
                       "f.from_slice", "f.try_from", "f.interpret", "f.from_str", "f.from_hash", "f.roundtrip",
                       "f.to_big_endian", "f.set_bit",
                       "f2.add", "f2.sub", "f2.mul", "f2.neg", "f2.parts", "f2.new", "f2.from_slice", "f2.eq", "f2.g2dbl",
-                      "f2.laws", "f2.sqrt"}
+                      "f2.laws", "f2.sqrt",
+                      "g.add", "g.sub", "g.neg", "g.laws", "g.mul", "g.rmul", "g.modlaws", "g.eq", "g.normalize", "g.to_affine",
+                      "g.encode", "g.decode", "g.affine_new"}
 Chk(e) == CASE e.op \in {"f.add", "f.sub", "f.mul"} -> ChkFBin(e)
             [] e.op = "f.neg" -> ChkFNeg(e)
             [] e.op = "f.inv" -> ChkFInv(e)
@@ -39,6 +41,17 @@ Chk(e) == CASE e.op \in {"f.add", "f.sub", "f.mul"} -> ChkFBin(e)
             [] e.op = "f2.g2dbl" -> ChkF2G2Dbl(e)
             [] e.op = "f2.laws" -> ChkF2Laws(e)
             [] e.op = "f2.sqrt" -> ChkF2Sqrt(e)
+            [] e.op \in {"g.add", "g.sub"} -> ChkGAddSub(e)
+            [] e.op = "g.neg" -> ChkGNeg(e)
+            [] e.op = "g.laws" -> ChkGLaws(e)
+            [] e.op \in {"g.mul", "g.rmul"} -> ChkGMul(e)
+            [] e.op = "g.modlaws" -> ChkGModLaws(e)
+            [] e.op = "g.eq" -> ChkGEq(e)
+            [] e.op = "g.normalize" -> ChkGNormalize(e)
+            [] e.op = "g.to_affine" -> ChkGToAffine(e)
+            [] e.op = "g.encode" -> ChkGEncode(e)
+            [] e.op = "g.decode" -> ChkGDecode(e)
+            [] e.op = "g.affine_new" -> ChkGAffineNew(e)
 \* a panic or a hang of the code under test is never allowed; an unknown event is a tooling error and is reported too
 Verdict(e) == IF ~Known(e) THEN "unknown-op" ELSE IF e.panic THEN "panic" ELSE IF Chk(e) THEN "ok" ELSE "mismatch"
 Init == l = 1 /\ bad = <<>>
